@@ -60,7 +60,7 @@ def run(ctx, chk):
                 look += 1
                 chk.sample({"rule": "C17.R1", "site": "%s:%d %s" % (fk, n.lineno, ast.unparse(n)),
                             "verdict": "examined (bound guard or covering handler required)"})
-    chk.floor("C17.R1", look, 3, "look-ahead subscripts seq[i+k] reachable from search_dates")
+    chk.floor("C17.R1", look, 2, "look-ahead subscripts seq[i+k] reachable from search_dates")
     # parallel-index sites B[i] with i the position in another list: each reachable one is an obligation
     # (an unproved one is already a finding through the escape analysis; here the proofs are put on record)
     n_par = 0
